@@ -146,9 +146,9 @@ def run(tier, seed):
     ntr = 0
     if obs_cases:
         d = workdir("c11o")
-        dump([], d / "progs.json")
-        dump(obs_cases, d / "obs.json")
-        r2 = run_tlc("KernelRun", "KernelRun.cfg", env={"VF_PROGS": d / "progs.json", "VF_CASES": d / "obs.json"})
+        from ..irtrees import machine_chunks
+
+        r2 = machine_chunks([], obs_cases, d, "c11obs", per_chunk=6000)   # bounded constants per TLC run
         import shutil
 
         shutil.rmtree(d, ignore_errors=True)
